@@ -237,3 +237,16 @@ PROPS = {
         not_decided='(b) (known finding F20); the remaining ~65 _p_* functions are covered by the bounded oracles only (flags, sections, search keys, date-times)',
     ),
 }
+
+# additions of the third session (DESIGN 12.8), appended to the explanations above
+_MORE = {
+    "C05": " Proved since: a session that selected the mailbox with EXAMINE never reaches Mailbox.store (do_store is refused before it queues) and all its body fetches are peeks (do_fetch, every attribute); before the recorded fix F10 STORE and non-PEEK fetches of such a session changed flags. Bounded: 12 changing commands issued by an EXAMINE session, flags read back by a second session.",
+    "C06": " Proved since, with cancellation possible at every suspension point of Mailbox.management_task: whenever the task ends, no command it had taken off the queue is left waiting for its go-ahead (before the recorded fix F54 a command held in command_can_proceed() when the mailbox was shut down was only answered by the watchdog); ready_and_okay marks the command completed however the wait or the body ends; do_done: the session no longer counts as idling when the tagged line is written. Bounded: commands issued while another session deletes the mailbox (12 cases).",
+    "C08": " Proved since: the fixed-token matcher _p_simple_string consumes exactly the token, only when the input starts with it (case-insensitively unless asked), and raises NoMatch exactly when not silent and there is no match. Bounded since: 24 long, badly ending command lines each parsed in its own interpreter under a 5 s limit (termination is not modelled by the contracts); the front end's read loop against the reference tokenizer (literals by octet count).",
+    "C10": " Bounded since: the POP3 session oracle (snapshot kept while an IMAP session expunges) and commands issued while another session deletes the mailbox. Not expressible: aliasing between lists (PyVC models lists as values).",
+    "C11": " get_next_uid_vv (the UIDVALIDITY handed out is the value already durable) and update_mtime_in_db (touches no committed UID or flag state) are in this property's function list since.",
+    "C12": " update_mtime_in_db is proved to leave the committed UID and flag state alone. Bounded since: the restart oracle takes the listing before any SELECT, starts from and restarts into a server that has run the real start-up's find_all_folders(), and has two more history steps (DELETE of a parent then CREATE again; one CREATE with two missing ancestors); SPECIAL-USE mailboxes created at start-up are not compared, as the property allows.",
+    "C20": " Proved since (second contract on dot_stuff's real body, split/join uninterpreted): one output line per input line, a '.' put in front of exactly the lines that start with one, no line of the result is a lone '.'.",
+}
+for _k, _v in _MORE.items():
+    PROPS[_k]["text"] = PROPS[_k]["text"] + _v
